@@ -3,7 +3,7 @@ from hypothesis import strategies as st
 
 SLEEPS = [0, 0, 0.5, 1, 1, 2, 3]
 EXC = ['E', 'L', 'K', 'I', 'V', 'R']
-PRIV = ['A', 'KI', 'SE']
+PRIV = ['A', 'KI', 'SE', 'A', 'A2', 'KI2', 'SE2']     # (derived classes count as privileged, too)
 
 
 class Namer:
